@@ -123,7 +123,7 @@ def _fill_points(model, point_apps):
     def mk(name):
         def f(*args):
             d = model.get(name, {})
-            key = args[0] if len(args) == 1 else tuple(args)
+            key = args[0] if len(args) == 1 else str(tuple(args))
             return d.get(key, 0) if isinstance(d, dict) else 0
         return f
     pending = list(enumerate(point_apps))
@@ -139,7 +139,7 @@ def _fill_points(model, point_apps):
             val = model.get(f"app!{k}")
             if val is None:
                 continue
-            key = args[0] if len(args) == 1 else tuple(args)
+            key = args[0] if len(args) == 1 else str(tuple(args))
             d = model.setdefault(ap[2], {})
             if isinstance(d, dict):
                 d[key] = val
